@@ -8,7 +8,8 @@
 EXTENDS Naturals, Sequences, TLC, Json
 Shapes == { "null", "true", "false", "i0", "i1", "imin", "f0", "fneg0", "f1", "nan", "nan2", "inf", "s_empty", "s_a", "ts0", "dur0",
             "arr_empty", "arr_i1", "arr_f1", "arr_nan", "arr_nan2", "arr_f0", "arr_fneg0", "arr_nested",
-            "map_empty", "map_ab", "map_ba", "map_a", "map_ab_nan", "map_ba_nan2", "map_nested_ab", "map_nested_ba", "map_zero", "map_negzero" }
+            "map_empty", "map_ab", "map_ba", "map_a", "map_ab_nan", "map_ba_nan2", "map_nested_ab", "map_nested_ba", "map_zero", "map_negzero",
+            "map_anull_b", "map_cnull_b", "map_b_c2", "map_anull", "map_cnull", "arr_map_anull", "arr_map_cnull" }
 Class(s) == CASE s \in {"nan", "nan2"} -> "NAN" [] s \in {"f0", "fneg0"} -> "ZERO" [] s \in {"arr_nan", "arr_nan2"} -> "ARRNAN"
               [] s \in {"arr_f0", "arr_fneg0"} -> "ARRZERO" [] s \in {"map_ab", "map_ba"} -> "MAPAB"
               [] s \in {"map_ab_nan", "map_ba_nan2"} -> "MAPABNAN" [] s \in {"map_nested_ab", "map_nested_ba"} -> "MAPNEST"
